@@ -218,6 +218,10 @@ def _read_list(data: dict, key: str, unparsed_keys: Set[str], pointer: JsonPoint
 
 
 def parse_enum(data: dict, config: Config, unparsed_keys: Set[str], path: JsonPointer) -> Node:
+    for key in ['NOT_enum', 'enum']:
+        for value in data.get(key, []) if isinstance(data.get(key, []), list) else []:
+            if isinstance(value, (list, dict)):
+                raise JsonSchemaException(f"Only scalar values are supported in '{key}', got {value} at {path}", path)
     invalid_values = set(_read_list(data, 'NOT_enum', unparsed_keys, path, []))
     valid_values = set(_read_list(data, 'enum', unparsed_keys, path, []))
     invalid_values = invalid_values - valid_values
